@@ -74,7 +74,9 @@ def dest_inv(h):
         ("D6.nak_counter", And_(0 <= ap.nak_activity_counter, opt(
             p.remote_cfg, lambda rc: ap.nak_activity_counter < rc.nak_timer_expiration_limit, True),
             Implies_(isnone(ap.procedure_timer), ap.nak_activity_counter == 0))),
-        ("D14.metadata_only_not_before_metadata", Implies_(step_is_(st, STEP.IDLE, STEP.WAITING_FOR_METADATA), Not_(B(fp.metadata_only)))),
+        ("D14.metadata_only_not_before_metadata", Implies_(Or_(step_is_(st, STEP.IDLE, STEP.WAITING_FOR_METADATA), B(ap.metadata_missing)),
+                                                           Not_(B(fp.metadata_only)))),
+        ("D17.direction_towards_sender", Implies_(ne(st.state, IDLE), eq(p.pdu_conf.direction, Direction.TOWARDS_SENDER))),
         ("D7.counters", And_(fp.progress >= 0, ap.last_start_offset >= 0, ap.last_start_offset <= ap.last_end_offset)),
     ]
     return L
@@ -257,7 +259,7 @@ def _fin_pdu_is_live(n):
 
 
 C("_handle_positive_ack_procedures", arg_types=SELF, props=("C04",), result=None,
-  requires=REQ_INV + DEFAULT + [("in_ack_wait", _pa_pre)],
+  requires=REQ_INV + [("DestInvTracker", lambda o: tracker_inv(o.self))] + DEFAULT + [("in_ack_wait", _pa_pre)],
   modifies=["self._params.positive_ack_params.ack_counter", "self._params.positive_ack_params.ack_timer",
             "self._params.positive_ack_params.ack_timer.expired", "self._pdus_to_be_sent", "self.states._num_packets_ready", "self.states.step", "self.states.state",
             "self._params.finished_params.condition_code", "self._params.finished_params.file_status",
@@ -588,9 +590,13 @@ EOF_MOD = ["self._params.fp.crc32", "self._params.fp.file_size_eof", "self._para
            "self._params.current_check_count"]
 
 C("_handle_eof_pdu", arg_types={**SELF, "eof_pdu": T.Obj(EofPdu)}, props=("C12", "C13", "C01"), result=T.Opt(T.Bool),
-  requires=REQ_INV + DEFAULT + [
+  requires=REQ_INV + [("DestInvTracker", lambda o: tracker_inv(o.self))] + DEFAULT + [
       ("receiving", lambda o: And_(ne(o.self.states.state, IDLE),
                                    step_is(o.self, STEP.RECEIVING_FILE_DATA, STEP.RECV_FILE_DATA_WITH_CHECK_LIMIT_HANDLING))),
+      # acknowledged mode: the furthest segment end never exceeds the progress (no write was dropped after a
+      # successful one, see DESIGN: environment assumption on the filestore), and no EOF was seen before
+      ("acked_extent", lambda o: Implies_(eq(mode(o.self), ACK), And_(
+          o.self._params.acked_params.last_end_offset <= o.self._params.fp.progress, isnone(o.self._params.fp.file_size_eof)))),
       ("pdu_wf", lambda o: pdu_wf(o.eof_pdu)),
       ("not_cancelled", lambda o: ne(o.self._params.completion_disposition, CANCELED)),
       ("file_params", lambda o: Not_(B(o.self._params.fp.metadata_only))),
@@ -636,6 +642,14 @@ C("_handle_eof_pdu", arg_types={**SELF, "eof_pdu": T.Obj(EofPdu)}, props=("C12",
           eq(n.self._params.completion_disposition, CANCELED),
           eq(_fpar(n.self).condition_code, CC.FILE_SIZE_ERROR))), ("C14", "C01")),
       Clause("C05.eof_does_not_touch_files", lambda o, n, r: all(e["op"] == "calculate_checksum" for e in vfs_ops(n)), ("C05",)),
+      # C06: the tail gap between the last byte received and the EOF file size becomes a lost range
+      Clause("C06.tail_gap_is_recorded", lambda o, n, r: Implies_(And_(Not_(_eof_is_cancel(o)), eq(mode(o.self), ACK)), z3.ForAll(
+          [TR.X], TR.view(trk(n.self), TR.X) == z3.Or(TR.view(trk(o.self), TR.X), z3.And(
+              o.self._params.fp.progress <= TR.X, TR.X < o.eof_pdu.file_size)))), ("C06",)),
+      Clause("inv.tracker", lambda o, n, r: tracker_inv(n.self), ("C06",)),
+      Clause("D16.eof_size_covers_all_segments", lambda o, n, r: Implies_(And_(eq(mode(o.self), ACK), Not_(_eof_is_cancel(o)),
+                                                                                step_is(n.self, STEP.SENDING_EOF_ACK_PDU)),
+             o.eof_pdu.file_size >= n.self._params.acked_params.last_end_offset), ("C06",)),
   ] + inv_clauses(("C12",)),
   modular=False)
 
@@ -643,7 +657,7 @@ C("_handle_eof_pdu", arg_types={**SELF, "eof_pdu": T.Obj(EofPdu)}, props=("C12",
 # ==============================================================================================
 # C05 / C15 / C02: Metadata handling, destination path resolution, file creation
 # ==============================================================================================
-from stubs.cfdp import fs_is_dir, fs_exists, path_join, path_name, path_of_str, EMPTY_PATH  # noqa: E402
+from stubs.cfdp import fs_is_dir, fs_exists, path_join, path_name, path_of_str, EMPTY_PATH, cfg_known  # noqa: E402
 from pyvc.values import SPath, SStr  # noqa: E402
 
 
@@ -878,7 +892,9 @@ def tracker_inv(h):
     ap = h._params.acked_params
     d = trk(h)
     return z3.And(TR.tr_wf(d), z3.ForAll([TR.X], z3.Implies(TR.view(d, TR.X), z3.And(0 <= TR.X, TR.X < extent(h)))),
-                  0 <= ap.last_start_offset, ap.last_start_offset <= ap.last_end_offset)
+                  0 <= ap.last_start_offset, ap.last_start_offset <= ap.last_end_offset,
+                  # D8: nothing is tracked in unacknowledged mode
+                  z3.Implies(to_z3_bool(eq(mode(h), UNACK)), z3.And(d.n == 0, z3.ForAll([TR.X], z3.Not(TR.view(d, TR.X))))))
 
 
 def segments_tracked_up_to_last_end(h):
@@ -938,12 +954,12 @@ def _one_nak(n, scope_end, reqs, h_old):
 
 
 LSH_MOD = ["self._params.acked_params.lost_seg_tracker.lost_segments", "self._params.acked_params.last_start_offset",
-           "self._params.acked_params.last_end_offset", "self._pdus_to_be_sent", "self.states._num_packets_ready",
-           "self._params.pdu_conf.direction"]
+           "self._params.acked_params.last_end_offset", "self._pdus_to_be_sent", "self.states._num_packets_ready"]
 
 C("_lost_segment_handling", arg_types={**SELF, "offset": T.Int, "data_len": T.Int}, props=("C06", "C10"), result=None,
   requires=REQ_INV + REQ_TRK + [("busy", lambda o: And_(ne(o.self.states.state, IDLE), Not_(isnone(o.self._params.remote_cfg)))),
                                 ("segment", lambda o: And_(o.offset >= 0, o.data_len >= 0)),
+                                ("acked", lambda o: eq(mode(o.self), ACK)),
                                 ("receiving_file_data", lambda o: segments_tracked_up_to_last_end(o.self))],
   modifies=LSH_MOD,
   ensures=[
@@ -1085,7 +1101,7 @@ def _nak_len(c, nreq):
 def nak_cfg_valid(h):
     """F11 (degenerate configuration) excluded: at least one segment request fits into a NAK PDU"""
     c = h._params.pdu_conf
-    return And_(conf_wf(c), rcfg(h).max_packet_len >= _nak_len(c, 1))
+    return And_(conf_wf(c), opt(h._params.remote_cfg, lambda rc: rc.max_packet_len >= _nak_len(c, 1), False))
 
 
 def _max_reqs(h):
@@ -1135,6 +1151,7 @@ def _dl_loop_inv(I, pre, env, idx, n):
             R.a[j] == sa(first + j)[0], R.b[j] == sa(first + j)[1])))),
         ("tracker_unchanged", TR.same_map(trk(env.self), trk(h0)) if trk(env.self) is not trk(h0) else True),
         ("queue_counter", And_(to_z3_int(env.self.states._num_packets_ready) == env.self._pdus_to_be_sent.length())),
+        ("direction", eq(env.self._params.pdu_conf.direction, Direction.TOWARDS_SENDER)),
     ]
 
 
@@ -1171,7 +1188,7 @@ def _dl_body_post(I, pre, head, after, events, idx):
     ]
 
 
-DL_MOD = ["self._pdus_to_be_sent", "self.states._num_packets_ready", "self._params.pdu_conf.direction",
+DL_MOD = ["self._pdus_to_be_sent", "self.states._num_packets_ready",
           "self._params.acked_params.procedure_timer", "self._params.acked_params.procedure_timer.expired",
           "self._params.acked_params.nak_activity_counter", "self._params.acked_params.deferred_lost_segment_detection_active",
           "self.states.step", "self.states.state", "self._params.finished_params.delivery_code",
@@ -1246,7 +1263,7 @@ def _busy_acked(o):
 
 FDWM_MOD = ["self._params.fp.progress", "self._params.acked_params.lost_seg_tracker.lost_segments",
             "self._params.acked_params.last_start_offset", "self._params.acked_params.last_end_offset",
-            "self._pdus_to_be_sent", "self.states._num_packets_ready", "self._params.pdu_conf.direction"]
+            "self._pdus_to_be_sent", "self.states._num_packets_ready"]
 
 
 def _fdwm_len(o):
@@ -1294,7 +1311,7 @@ C("_handle_fd_without_previous_metadata", arg_types={**SELF, "first_pdu": T.Bool
 
 EOFWM_MOD = ["self._params.fp.progress", "self._params.fp.file_size_eof", "self._params.fp.crc32",
              "self._params.acked_params.metadata_missing", "self._params.acked_params.lost_seg_tracker.lost_segments",
-             "self._pdus_to_be_sent", "self.states._num_packets_ready", "self.states.step", "self._params.pdu_conf.direction"]
+             "self._pdus_to_be_sent", "self.states._num_packets_ready", "self.states.step"]
 
 
 def _eofwm_ind_ok(o, n):
@@ -1403,3 +1420,300 @@ C("_handle_waiting_for_missing_metadata", arg_types={**SELF, "packet_holder": T.
   ] + inv_clauses(("C03",)),
   raises=[RaiseClause("vfs.truncate_race", FileNotFoundError, when=lambda o: _hp_is(o, MetadataPdu), props=("C10",), modifies=WMM_MOD)],
   effects={"vfs", "user", "fault_cb", "timer"}, modular=True)
+
+
+# ==============================================================================================
+# after the EOF ACK was retrieved: start of the deferred procedure or completion (C01 guard, C06, C03)
+# ==============================================================================================
+SD_MOD = sorted(set(DL_MOD + ["self._params.acked_params.lost_seg_tracker.lost_segments", "self._params.acked_params.last_start_offset",
+                              "self._params.acked_params.last_end_offset"]))
+
+
+def _sd_pre(o):
+    h = o.self
+    return And_(_busy_acked(o), step_is(h, STEP.SENDING_EOF_ACK_PDU), Not_(isnone(h._params.fp.file_size_eof)),
+                opt(h._params.fp.file_size_eof, lambda s: And_(s >= 0, s >= _ap(h).last_end_offset), False), nak_cfg_valid(h),
+                isnone(_ap(h).procedure_timer), Not_(_deferred(h)), Or_(_ck_trivial(o), Not_(isnone(h._params.fp.crc32))))
+
+
+C("_start_deferred_lost_segment_handling", arg_types=SELF, props=("C06", "C03", "C04"), result=None,
+  requires=REQ_INV + REQ_TRK + DEFAULT + [("eof_ack_sent", _sd_pre),
+                                          ("something_missing", lambda o: Or_(trk(o.self).n > 0, B(_ap(o.self).metadata_missing)))],
+  modifies=SD_MOD,
+  ensures=[
+      Clause("C03.deferred_procedure_started_and_serviced", lambda o, n, r: And_(
+          _deferred(n.self), Implies_(B(_ap(o.self).metadata_missing), step_is(n.self, STEP.WAITING_FOR_METADATA)),
+          Implies_(Not_(B(_ap(o.self).metadata_missing)), step_is(n.self, STEP.WAITING_FOR_MISSING_DATA)),
+          Not_(isnone(_ap(n.self).procedure_timer)), _ap(n.self).nak_activity_counter == 0), ("C03", "C04")),
+      Clause("C06.coalescing_keeps_the_missing_set", lambda o, n, r: z3.ForAll(
+          [TR.X], TR.view(trk(n.self), TR.X) == TR.view(trk(o.self), TR.X)), ("C06", "C18")),
+      Clause("C06.extent_is_eof_size_from_now_on", lambda o, n, r: And_(
+          n.self._params.acked_params.last_end_offset == val(o.self._params.fp.file_size_eof),
+          n.self._params.acked_params.last_start_offset == val(o.self._params.fp.file_size_eof)), ("C06",)),
+      Clause("C04.nak.first_sequence_issued_at_once", lambda o, n, r: len(emitted(n)) <= 1 and len(fault_cbs(n)) == 0
+             and len(inds(n)) == 0, ("C04", "C06")),
+      Clause("inv.tracker", lambda o, n, r: Implies_(val(o.self._params.fp.file_size_eof) >= o.self._params.acked_params.last_end_offset,
+                                                     tracker_inv(n.self)), ("C06",)),
+  ] + inv_clauses(("C03",)),
+  effects={"timer", "vfs", "fault_cb"}, modular=True)
+CONTRACTS[-1].inline_callees = {"DestHandler._deferred_lost_segment_handling"}
+
+
+FA_MOD = sorted(set(SD_MOD + ["self._params.finished_params.delivery_code", "self._params.finished_params.condition_code"]))
+
+C("_fsm_advancement_after_packets_were_sent", arg_types=SELF, props=("C01", "C06", "C03", "C10", "C12"), result=None,
+  requires=REQ_INV + REQ_TRK + DEFAULT + [
+      ("busy", lambda o: And_(ne(o.self.states.state, IDLE), Not_(isnone(o.self._params.transaction_id)), Not_(isnone(o.self._params.remote_cfg)))),
+      ("eof_ack_step", lambda o: Implies_(step_is(o.self, STEP.SENDING_EOF_ACK_PDU), And_(
+          eq(mode(o.self), ACK), Not_(isnone(o.self._params.fp.file_size_eof)),
+          opt(o.self._params.fp.file_size_eof, lambda s: And_(s >= 0, s >= _ap(o.self).last_end_offset), False),
+          nak_cfg_valid(o.self), isnone(_ap(o.self).procedure_timer), Not_(_deferred(o.self)),
+          Or_(_ck_trivial(o), Not_(isnone(o.self._params.fp.crc32)))))),
+  ],
+  modifies=FA_MOD,
+  cond_frames=[("C10.other_steps_untouched", lambda o: Not_(step_is(o.self, STEP.SENDING_EOF_ACK_PDU)), [], {"silent": True})],
+  ensures=[
+      Clause("C06.completion_only_when_nothing_is_missing", lambda o, n, r: Implies_(step_is(o.self, STEP.SENDING_EOF_ACK_PDU), And_(
+          Implies_(And_(trk(o.self).n == 0, Not_(B(_ap(o.self).metadata_missing))), And_(
+              step_is(n.self, STEP.TRANSFER_COMPLETION), len(emitted(n)) == 0,
+              # C12/C14: verification never overwrites the condition of a cancelled transaction
+              Implies_(eq(o.self._params.completion_disposition, CANCELED), And_(
+                  len(vfs_ops(n)) == 0, unchanged(o, n, "_params.finished_params.condition_code", "_params.finished_params.delivery_code"))),
+              Implies_(And_(ne(o.self._params.completion_disposition, CANCELED), Not_(_ck_trivial(o))),
+                       len(vfs_ops(n, "calculate_checksum")) == 1))),
+          Implies_(Or_(trk(o.self).n > 0, B(_ap(o.self).metadata_missing)), And_(
+              _deferred(n.self), step_is(n.self, STEP.WAITING_FOR_METADATA, STEP.WAITING_FOR_MISSING_DATA))))), ("C06", "C01", "C12", "C03")),
+      Clause("inv.tracker", lambda o, n, r: Implies_(Or_(Not_(step_is(o.self, STEP.SENDING_EOF_ACK_PDU)), opt(
+          o.self._params.fp.file_size_eof, lambda s: s >= o.self._params.acked_params.last_end_offset, True)), tracker_inv(n.self)), ("C06",)),
+  ] + inv_clauses(("C03",)),
+  raises=[RaiseClause("C10.unretrieved_truthful", D.UnretrievedPdusToBeSent, iff=True,
+                      when=lambda o: o.self._pdus_to_be_sent.length() > 0, props=("C10",), modifies=[])],
+  effects={"vfs", "timer", "fault_cb"}, modular=True)
+CONTRACTS[-1].contract_callees = {"DestHandler._start_deferred_lost_segment_handling"}
+for _c in CONTRACTS:
+    if _c.fq.endswith("._start_deferred_lost_segment_handling") or _c.fq.endswith("DestHandler._handle_eof_pdu"):
+        _c.cost_hint = 4
+
+
+# ==============================================================================================
+# C04 (receiver): Finished PDU sent, waiting for its ACK
+# ==============================================================================================
+C("_handle_finished_pdu_sent", arg_types=SELF, props=("C04", "C02"), result=None,
+  requires=REQ_INV + [("finished_queued", lambda o: And_(ne(o.self.states.state, IDLE), step_is(o.self, STEP.SENDING_FINISHED_PDU),
+                                                        Not_(isnone(o.self._params.remote_cfg))))],
+  modifies=["self._params.positive_ack_params.ack_timer", "self._params.positive_ack_params.ack_counter", "self.states.step",
+            "self.states.state", "self._params"],
+  ensures=[
+      Clause("C04.fin.ack_procedure_started", lambda o, n, r: Implies_(eq(mode(o.self), ACK), And_(
+          step_is(n.self, STEP.WAITING_FOR_FINISHED_ACK), _pa(n.self).ack_counter == 0,
+          opt(_pa(n.self).ack_timer, lambda t: Not_(B(t.expired)), False), n.self._params.oid == o.self._params.oid)), ("C04",)),
+      Clause("C02.unacked_closure_ends_after_finished", lambda o, n, r: Implies_(eq(mode(o.self), UNACK), And_(
+          eq(n.self.states.state, IDLE), eq(n.self.states.step, STEP.IDLE), fresh_params(n.self._params, o.self._params))), ("C02", "C11")),
+      Clause("silent", lambda o, n, r: len([e for e in n.trace if e["kind"] in ("pdu", "ind", "fault_cb", "vfs")]) == 0, ("C04",)),
+  ],
+  effects={"timer"}, modular=False)
+
+
+def _wfa_pre(o):
+    h = o.self
+    return And_(step_is(h, STEP.WAITING_FOR_FINISHED_ACK), ne(h.states.state, IDLE), pdu_wf(_hp(o)),
+                Implies_(_pa_expired(o), qempty(h)))
+
+
+WFA_MOD = ["self._params.positive_ack_params.ack_counter", "self._params.positive_ack_params.ack_timer",
+           "self._params.positive_ack_params.ack_timer.expired", "self._pdus_to_be_sent", "self.states._num_packets_ready",
+           "self.states.step", "self.states.state", "self._params.finished_params.condition_code",
+           "self._params.finished_params.file_status", "self._params.completion_disposition", "self._params"]
+
+C("_handle_waiting_for_finished_ack", arg_types={**SELF, "packet_holder": T.Obj(_PH)}, setup=_dest_holder_setup,
+  props=("C04", "C02", "C11"), result=None,
+  requires=REQ_INV + REQ_TRK + DEFAULT + [("waiting_for_finished_ack", _wfa_pre)],
+  modifies=WFA_MOD,
+  cond_frames=[("C04.fin.nothing_happens_before_expiry", lambda o: (Not_(_pa_expired(o)) if not _hp_is(o, AckPdu) else False),
+                [], {"silent": True})],
+  ensures=[
+      Clause("C04.fin.ack_ends_the_transaction", lambda o, n, r: (And_(
+          eq(n.self.states.state, IDLE), eq(n.self.states.step, STEP.IDLE), fresh_params(n.self._params, o.self._params),
+          len([e for e in n.trace if e["kind"] in ("pdu", "ind", "fault_cb", "vfs")]) == 0)
+          if _hp_is(o, AckPdu) else True), ("C04", "C02", "C11")),
+      Clause("C04.fin.expiry_without_ack_resends", lambda o, n, r: (
+          Implies_(And_(_pa_expired(o), Not_(_pa_limit_hit(o))), And_(
+              _pa(n.self).ack_counter == _pa(o.self).ack_counter + 1, _fin_pdu_is_live(n), step_is(n.self, STEP.WAITING_FOR_FINISHED_ACK)))
+          if not _hp_is(o, AckPdu) else True), ("C04",)),
+  ] + inv_clauses(("C04",)),
+  effects={"timer", "fault_cb", "user", "vfs"}, modular=True)
+CONTRACTS[-1].cost_hint = 3
+
+
+# ==============================================================================================
+# transaction start at the receiver (C11 fresh state, C02/C03 first packet), idle FSM
+# ==============================================================================================
+def _first_packet_setup(interp, roots):
+    roots["packet"] = interp.fresh_value(T.OneOf([_FD, MetadataPdu, EofPdu]), "packet")
+    p = roots["packet"]
+    if p.cls is MetadataPdu:
+        for k in ("source_file_name", "dest_file_name"):
+            p.f[k] = interp.force(p.f[k])
+
+
+def _idle_pre(o):
+    """what the admission check guarantees for an idle handler: the first packet is Metadata (any mode) or, in
+    acknowledged mode, File Data / EOF; its source entity is in the remote configuration table"""
+    h, p = o.self, o.packet
+    if p is None:
+        return eq(h.states.state, IDLE)
+    return And_(eq(h.states.state, IDLE), pdu_wf(p),
+                True if p.cls is MetadataPdu else eq(p.pdu_conf.trans_mode, ACK),
+                ((p.dest_file_name is None) == (p.source_file_name is None)) if p.cls is MetadataPdu else True,
+                qempty(h))
+
+
+IDLE_MOD = sorted(set(["self._params", "self.states.state", "self.states.step", "self.states.transaction_id",
+                       "self._pdus_to_be_sent", "self.states._num_packets_ready", "packet.pdu_conf.direction"]))
+
+
+def _idle_started_ok(o, n):
+    """the transaction was opened on a FRESH parameter block with the packet's ids and the sender's configuration"""
+    p = o.packet
+    np = n.self._params
+    return And_(
+        np.oid != o.self._params.oid, np.acked_params.lost_seg_tracker.oid != o.self._params.acked_params.lost_seg_tracker.oid,
+        opt(np.transaction_id, lambda t: And_(Eq_(t.source_id.value, p.pdu_conf.source_entity_id.value),
+                                              Eq_(t.seq_num.value, p.pdu_conf.transaction_seq_num.value)), False),
+        opt(np.remote_cfg, lambda rc: Eq_(rc.entity_id.value, p.pdu_conf.source_entity_id.value), False),
+        Eq_(np.pdu_conf.trans_mode, p.pdu_conf.trans_mode), eq(np.pdu_conf.direction, Direction.TOWARDS_SENDER),
+        eq(n.self.states.state, BUSY))
+
+
+def _idle_contract():
+    c = C("__idle_fsm", arg_types={**SELF, "packet": T.Opaque}, setup=_first_packet_setup, props=("C11", "C02", "C03", "C10"),
+          result=None,
+          requires=REQ_INV + REQ_TRK + DEFAULT + [("idle_and_admitted", _idle_pre),
+                    ("sender_known", lambda o: True if o.packet is None else cfg_known(to_z3_int(o.packet.pdu_conf.source_entity_id.value)))],
+          modifies=IDLE_MOD,
+          ensures=[
+              Clause("C11.dest.transaction_starts_on_fresh_state", lambda o, n, r: Implies_(ne(n.self.states.state, IDLE),
+                     _idle_started_ok(o, n)), ("C11", "C02")),
+              Clause("C02.metadata_first_starts_reception", lambda o, n, r: (
+                  Implies_(ne(n.self.states.state, IDLE), And_(
+                      step_is(n.self, STEP.RECEIVING_FILE_DATA, STEP.TRANSFER_COMPLETION),
+                      Not_(B(_ap(n.self).metadata_missing)), trk(n.self).n == 0,
+                      n.self._params.fp.progress == 0, len(emitted(n)) == 0))
+                  if o.packet.cls is MetadataPdu else True), ("C02", "C05")),
+              Clause("C03.data_or_eof_first_waits_for_metadata", lambda o, n, r: (
+                  And_(B(_ap(n.self).metadata_missing), Implies_(o.packet.cls is _FD, step_is(n.self, STEP.WAITING_FOR_METADATA)),
+                       Implies_(o.packet.cls is EofPdu, step_is(n.self, STEP.SENDING_EOF_ACK_PDU)),
+                       len(vfs_ops(n)) == 0)
+                  if o.packet.cls is not MetadataPdu else True), ("C03", "C05", "C06")),
+              Clause("inv.tracker", lambda o, n, r: tracker_inv(n.self), ("C06", "C11")),
+          ] + inv_clauses(("C11",)),
+          raises=[RaiseClause("vfs.truncate_race", FileNotFoundError, when=lambda o: o.packet.cls is MetadataPdu, props=("C10",),
+                              modifies=IDLE_MOD)],
+          effects={"vfs", "user", "fault_cb"}, modular=True)
+    return c
+
+
+_idle_contract()
+
+
+# ==============================================================================================
+# the receiver's state machine, one instance per step (C10, C16, C05, C02/C03 dispatch), and its public wrapper
+# ==============================================================================================
+def _d_admitted(o):
+    """post of the admission check for a busy handler"""
+    p, h = o.packet, o.self
+    if p is None:
+        return True
+    return And_(pdu_wf(p), eq(p.pdu_conf.direction, Direction.TOWARDS_RECEIVER),
+                p.cls in (_FD, MetadataPdu, EofPdu, AckPdu, PromptPdu),
+                Implies_(eq(mode(h), UNACK), p.cls not in (AckPdu, PromptPdu)),
+                ((p.dest_file_name is None) == (p.source_file_name is None)) if p.cls is MetadataPdu else True)
+
+
+def _dfsm_setup(interp, roots):
+    roots["packet"] = interp.fresh_value(DEST_ADMITTED, "packet")
+    p = roots["packet"]
+    if p is not None and p.cls is MetadataPdu:
+        for k in ("source_file_name", "dest_file_name"):
+            p.f[k] = interp.force(p.f[k])
+
+
+DFSM_MOD = sorted(set(FA_MOD + FD_MOD + WMM_MOD + EOF_MOD + WFA_MOD + NOC_MOD + [
+    "self._params.check_timer.expired", "self._params.current_check_count", "self._params.fp.crc32", "self._params.fp.file_size_eof"]))
+
+DFSM_CALLEES = {"DestHandler._fsm_advancement_after_packets_were_sent", "DestHandler._handle_fd_pdu",
+                "DestHandler._handle_waiting_for_missing_metadata", "DestHandler._deferred_lost_segment_handling",
+                "DestHandler._handle_waiting_for_finished_ack"}
+
+
+def step_inv(h):
+    """per-step facts that the dispatcher relies on (inductive over the state machine)"""
+    p, fp, ap = h._params, h._params.fp, h._params.acked_params
+    m = mode(h)
+    return And_(
+        # the EOF checksum is known in every step that can lead to a verification
+        Implies_(step_is(h, STEP.RECV_FILE_DATA_WITH_CHECK_LIMIT_HANDLING, STEP.SENDING_EOF_ACK_PDU, STEP.WAITING_FOR_MISSING_DATA),
+                 And_(Not_(isnone(fp.crc32)), Not_(isnone(fp.file_size_eof)))),
+        Implies_(B(ap.deferred_lost_segment_detection_active), And_(
+            Not_(isnone(fp.crc32)), Not_(isnone(ap.procedure_timer)), nak_cfg_valid(h),
+            Implies_(ne(h.states.state, IDLE), step_is(h, STEP.WAITING_FOR_METADATA, STEP.WAITING_FOR_MISSING_DATA,
+                                                      STEP.TRANSFER_COMPLETION, STEP.SENDING_FINISHED_PDU, STEP.WAITING_FOR_FINISHED_ACK)))),
+        Implies_(Not_(B(ap.deferred_lost_segment_detection_active)), Implies_(step_is(
+            h, STEP.RECEIVING_FILE_DATA, STEP.SENDING_EOF_ACK_PDU, STEP.WAITING_FOR_METADATA), isnone(ap.procedure_timer))),
+        Implies_(step_is(h, STEP.WAITING_FOR_METADATA), And_(eq(m, ACK), B(ap.metadata_missing))),
+        Implies_(step_is(h, STEP.WAITING_FOR_MISSING_DATA), And_(eq(m, ACK), B(ap.deferred_lost_segment_detection_active),
+                                                                   Not_(B(ap.metadata_missing)))),
+        Implies_(step_is(h, STEP.RECEIVING_FILE_DATA, STEP.RECV_FILE_DATA_WITH_CHECK_LIMIT_HANDLING), Not_(B(ap.metadata_missing))),
+        Implies_(step_is(h, STEP.SENDING_EOF_ACK_PDU), And_(
+            eq(m, ACK), opt(fp.file_size_eof, lambda s: s >= 0, False), nak_cfg_valid(h))),
+        # acknowledged mode, file data phase: the extent is the end of the furthest segment and is covered by progress
+        Implies_(And_(eq(m, ACK), step_is(h, STEP.RECEIVING_FILE_DATA)), And_(isnone(fp.file_size_eof), ap.last_end_offset <= fp.progress)),
+        Implies_(And_(eq(m, ACK), step_is(h, STEP.WAITING_FOR_MISSING_DATA)), segments_tracked_up_to_last_end(h)),
+        Implies_(And_(eq(m, ACK), step_is(h, STEP.SENDING_EOF_ACK_PDU), ne(p.completion_disposition, CANCELED)),
+                 opt(fp.file_size_eof, lambda s: s >= ap.last_end_offset, True)),
+        Implies_(step_is(h, STEP.RECEIVING_FILE_DATA, STEP.RECV_FILE_DATA_WITH_CHECK_LIMIT_HANDLING, STEP.WAITING_FOR_MISSING_DATA,
+                         STEP.WAITING_FOR_METADATA, STEP.SENDING_EOF_ACK_PDU),
+                 And_(Not_(B(fp.metadata_only)))),
+        Implies_(step_is(h, STEP.RECEIVING_FILE_DATA, STEP.RECV_FILE_DATA_WITH_CHECK_LIMIT_HANDLING),
+                 And_(ne(p.completion_disposition, CANCELED), eq(p.finished_params.delivery_code, DeliveryCode.DATA_INCOMPLETE))),
+    )
+
+
+REQ_STEP = [("DestStepInv", lambda o: step_inv(o.self))]
+
+
+def _dfsm_contract(step):
+    c = C("__non_idle_fsm", instance=step.name, arg_types={**SELF, "packet": T.Opaque}, setup=_dfsm_setup,
+          props=("C10", "C16", "C05"), result=None,
+          requires=REQ_INV + REQ_TRK + REQ_STEP + DEFAULT + [
+              ("busy", lambda o: And_(ne(o.self.states.state, IDLE), Not_(isnone(o.self._params.transaction_id)),
+                                      Not_(isnone(o.self._params.remote_cfg)))),
+              ("admitted", _d_admitted), ("step", lambda o, step=step: step_is(o.self, step))],
+          modifies=DFSM_MOD,
+          ensures=inv_clauses(("C10",)) + [
+              Clause("inv.tracker", lambda o, n, r: Implies_(ne(n.self.states.state, IDLE), tracker_inv(n.self)), ("C10", "C06")),
+              Clause("inv.step", lambda o, n, r: Implies_(ne(n.self.states.state, IDLE), step_inv(n.self)), ("C10", "C03")),
+              # C05: every filestore mutation of this call addresses the resolved destination file
+              Clause("C05.only_the_destination_file_is_touched", lambda o, n, r: And_(*[
+                  Or_(Eq_(e["path"], o.self._params.fp.file_name), Eq_(e["path"], n.self._params.fp.file_name))
+                  for e in vfs_ops(n) if e.get("path") is not None and e["op"] in ("write_data", "delete_file", "truncate_file", "create_file")]),
+                  ("C05",)),
+          ],
+          raises=[
+              RaiseClause("C10.unretrieved_truthful", D.UnretrievedPdusToBeSent, iff=False,
+                          when=lambda o: True, props=("C10",), modifies=DFSM_MOD),
+              RaiseClause("F5b.tracker_value_error_leaks", ValueError, when=lambda o: o.packet is not None and o.packet.cls is _FD,
+                          props=("C10",), modifies=DFSM_MOD),
+              RaiseClause("vfs.truncate_race", FileNotFoundError, when=lambda o: o.packet is not None and o.packet.cls is MetadataPdu,
+                          props=("C10",), modifies=DFSM_MOD),
+          ],
+          effects={"vfs", "user", "timer", "fault_cb"}, modular=True)
+    c.contract_callees = set(DFSM_CALLEES)
+    c.cost_hint = 4
+    c.call_default = False
+    return c
+
+
+for _st in STEP:
+    if _st is not STEP.IDLE and _st is not STEP.TRANSACTION_START:
+        _dfsm_contract(_st)
